@@ -659,7 +659,13 @@ fn dir_name(r: &mut Rng) -> String {
     // several installed versions of one package, also versions that are equal
     // in value and differ in spelling (each directory is its own package)
     if r.chance(1, 10) {
-        return format!("{}-{}", r.pick(&["mktool", "py311-yaml", "libfoo"]), r.pick(&["1.3", "1.3.0", "1.3nb0", "1_3", "1.3pl", "6.0rc1", "6.0pre1", "1.3nb1", "1.4"]));
+        // (equal in value, or equal once leading zeros / case / separators are
+        // normalised away - each is still a directory, hence a package, of its own)
+        return format!(
+            "{}-{}",
+            r.pick(&["mktool", "py311-yaml", "libfoo", "font-8x13", "font-08x13", "Mktool"]),
+            r.pick(&["1.3", "1.3.0", "1.3nb0", "1_3", "1.3pl", "6.0rc1", "6.0pre1", "1.3nb1", "1.4", "1.03", "01.3", "1.003", "1.30", "1.3NB1", "1.3nb01"])
+        );
     }
     let dashes = r.range(1, 4);
     let mut parts: Vec<String> = vec![];
